@@ -85,7 +85,15 @@ func c08Build(cfg map[string]interface{}, rng *rand.Rand) (p4 string, grid [][2]
 				lat2++
 			}
 		}
-		s += " +lat_1=" + F(lat1) + " +lat_2=" + F(lat2) + " +lat_0=" + F(math.Round((lat1+lat2)/2*1e4)/1e4) + " +lon_0=" + F(lon0) + " +x_0=" + F(r(0, 2e6)) + " +y_0=" + F(r(0, 2e6))
+		// the latitude of origin: between the parallels, on the equator (the PROJ.4 default, written out), or south of the first
+		lat0 := math.Round((lat1+lat2)/2*1e4) / 1e4
+		switch rng.Intn(3) {
+		case 1:
+			lat0 = 0
+		case 2:
+			lat0 = math.Round((lat1-math.Copysign(7.5, lat1))*1e4) / 1e4
+		}
+		s += " +lat_1=" + F(lat1) + " +lat_2=" + F(lat2) + " +lat_0=" + F(lat0) + " +lon_0=" + F(lon0) + " +x_0=" + F(r(0, 2e6)) + " +y_0=" + F(r(0, 2e6))
 		if pn == "lcc" && rng.Intn(2) == 0 { // a scale factor on the conformal conic (the French Lambert zones have one)
 			s += " +k_0=" + F(r(0.9990, 1.0005))
 		}
